@@ -191,3 +191,38 @@ def _(model, gene, mutations, alleles):
 # candidate keeps its own variant here" and "a variant may be added here" by len(present_muts) == 1 / < 2 on a filtered
 # list; relating such list lengths to the uniqueness precondition needs a counting argument over finite sums that the
 # back ends do not find (tried; undecided after 80 s). Covered by the bounded native contract only.
+
+
+@contract("aldy.minor.solve_minor_model@objective-fit-and-miss", native=False)
+def _(model, VERR, score, coverage, VKEEP, VA):
+    types(model="CBC", VERR="Dict[Mutation, LinVar]", score="Dict[str, int]", coverage="Coverage",
+          VKEEP="Dict[Tuple[AlleleId, int], Dict[Mutation, Tuple[LinVar, LinVar]]]",
+          VA="Dict[Tuple[AlleleId, int], LinVar]")
+    returns("Tuple[LinExpr, LinExpr]")
+    requires(forall(lambda a="Tuple[AlleleId, int]": implies(a in VKEEP, a in VA)))
+    # C04 "the model objective (fit error + penalties for dropped ... variants ...)": the first two terms.
+    # fit error: one |error| variable per equation (families CABSL / CABSR of Gurobi.abssum, exact by lemma L-abs), weighted
+    # by the per-equation weight table
+    for m in VERR:
+        a_ = newvar(model, None, 0, lp_inf(), f"ABS_{lp_name(VERR[m])}")
+        family("CABSL_{}", a_ + VERR[m] >= 0)
+        family("CABSR_{}", a_ - VERR[m] >= 0)
+    ensures(result[0] == 0.0 + sum((1 if lp_name(VERR[m]) not in score else score[lp_name(VERR[m])])
+                                   * newvar_at("ABS_{}", lp_name(VERR[m])) for m in VERR), label="fit-error-term")
+    # penalty for dropped variants: minor_miss for every defined variant of a SELECTED candidate that is not kept
+    # (per candidate: #defined * A - sum of the products A*K)
+    ensures(result[1] == coverage.profile.minor_miss * (0.0 + sum(len(VKEEP[a]) * VA[a] for a in VKEEP))
+            - coverage.profile.minor_miss * (0.0 + sum(VKEEP[a][m][1] for a in VKEEP for m in VKEEP[a])),
+            label="miss-penalty-term")
+    modifies(model)
+
+
+@contract("aldy.minor.solve_minor_model@objective-assembly", native=False)
+def _(model, objective, o_penal, VPHASEERR, coverage):
+    types(model="CBC", objective="LinExpr", o_penal="LinExpr", VPHASEERR="List[LinExpr]", coverage="Coverage")
+    # C04 "the model objective (fit error + penalties for dropped, added and novel core variants + read-phase
+    # disagreement)": the objective handed to the solver is the sum of the three terms, the phase term weighted by
+    # minor_phase
+    cut_after("aldy.lpinterface.CBC.setObjective")
+    lp_setobjective(model, objective + o_penal + coverage.profile.minor_phase * (0.0 + sum(e for e in VPHASEERR)))
+    modifies(model)
